@@ -765,12 +765,70 @@ def region_absent_nillable(trees):
     return None
 
 
+def flatten_order(e):
+    """the order in which ElementMapper.map yields the classes of one document: ClassUtils.flatten pops
+    inner classes from the end"""
+    out = []
+    for c in reversed([c for c in e["c"] if class_like(c)]):
+        out.extend(flatten_order(c))
+    out.append(e)
+    return out
+
+
+def attr_names(e):
+    names = ["@" + k for k, _ in e["a"] if k != S.qn(S.XSI, "nil")]
+    for c in e["c"]:
+        if c["q"] not in names:
+            names.append(c["q"])
+    text = e["t"] or ""
+    if e["c"] and not text.strip():
+        text = ""
+    if text:
+        names.append("#text")
+    return names
+
+
+def greedy_merge(name_lists):
+    """own replica of how the field order is derived: occurrences with more fields first (stable), each
+    later one spliced in front of the first of its names that is already known"""
+    merged = []
+    for names in sorted(name_lists, key=len, reverse=True):
+        pending = []
+        for n in names:
+            if n in merged:
+                pos = merged.index(n)
+                merged[pos:pos] = pending
+                pending = []
+            else:
+                pending.append(n)
+        merged.extend(pending)
+    return merged
+
+
+def region_order(trees):
+    """an element name whose occurrences are only jointly consistent about the order of their children:
+    the greedy merge of the child orders contradicts one of them"""
+    groups = {}
+    for t in trees:
+        for e in flatten_order(t):
+            groups.setdefault(e["q"], []).append(attr_names(e))
+    for q, lists in groups.items():
+        merged = greedy_merge(lists)
+        rank = {n: i for i, n in enumerate(merged)}
+        for names in lists:
+            ranks = [rank[n] for n in names]
+            if ranks != sorted(ranks):
+                return f"children of {q}: the merged field order {merged} contradicts the occurrence {names}"
+    return None
+
+
 XML_REGIONS = [
     ("C13-union-member-order", region_union),
     ("C13-sequence-from-first-occurrence", region_groups),
     ("C13-empty-occurrence-ignored", region_empty),
     ("C13-union-node-falsy-value", region_union_falsy),
     ("C13-absent-nillable-rendered-nil", region_absent_nillable),
+    ("C13-field-order-greedy-merge", region_order),
 ]
 
 
@@ -849,6 +907,7 @@ WITNESS_XML = {
     "C13-empty-occurrence-ignored": ["<r><v><w>1</w></v><v/></r>"],
     "C13-union-node-falsy-value": ['<r><x a="1">true</x><x>false</x></r>'],
     "C13-absent-nillable-rendered-nil": [f'<r xmlns:xsi="{S.XSI}"><a>1</a><n xsi:nil="true"/></r>', "<r><a>2</a></r>"],
+    "C13-field-order-greedy-merge": ["<r><x><b>1</b><c>1</c></x><x><v>1</v><b>1</b></x><x><v>1</v><c>1</c></x></r>"],
 }
 WITNESS_JSON = {
     "C13-json-null-for-array": [{"a": [1]}, {"a": None}],
